@@ -340,6 +340,7 @@ def run(ctx):
     counting.cnt2(ctx, lib)
     counting.chr1(ctx, lib)
     counting.fch1(ctx, lib)
+    counting.scp1(ctx, lib)
     try:
         from . import plumbing
     except ImportError:
